@@ -47,14 +47,14 @@ def tasks(tier):
         pos = spec["kind"] == "position"
         n = PNMAX[tier] if pos else NMAX[tier]
         for ci in range(len(spec["cfgs"])):
-            for how in ("nd", "list", "ma", "ma2", "mai", "ndi", "listi"):
+            for how in ("nd", "list", "ma", "ma2", "mai", "ndi", "listi", "ndbe", "ndf4"):
                 if how in ("ma", "ma2", "mai") and not spec["none_ok"]:
                     continue
                 pass  # (integer data with a None bound is judged since /repo fix of valid_range_test)
                 if how == "list" and not spec["none_ok"]:
                     sig = "nd"
                 else:
-                    sig = "nd" if how in ("ma", "ma2", "mai", "ndi", "listi") else how
+                    sig = "nd" if how in ("ma", "ma2", "mai", "ndi", "listi", "ndbe", "ndf4") else how
                 ts.append(("A", name, ci, how, sig, n if how == "nd" else n - 1))
     for name, spec in G.SPECS.items():
         ts.append(("L", name))
